@@ -390,6 +390,14 @@ def inline_corpus():
         "T": [["T", "*", "F", "F"], ["F"]],
         "F": [["A", "A"], ["(", "E", ")"]],
         "A": [["x"], ["x", "q"]]}))
+    # an inlined nonterminal with fallible AND infallible alternatives, occurring several times in one
+    # alternative (the synthetic action is fallible iff some chosen alternative is)
+    C.append(G("inl_mixed", ["n", "one", "two", ",", ";"], {
+        "S": [["I", ",", "I"], ["S", ";", "I", ",", "I"]],
+        "I": [(["n"], ["fallible"]), ["one"], ["two"]]}))
+    C.append(G("inl_mixed3", ["n", "one", "z"], {
+        "S": [["J", "J", "J", "z"], ["S", "J", "z"]],
+        "J": [(["n"], ["fallible"]), ["one"]]}))
     C.append(G("inl_chain", ["a", "b", "c", "d"], {
         "S": [["X", "X", "d"], ["d", "X"]],
         "X": [["Y", "c", "Y"]], "Y": [["Z", "Z"]], "Z": [["a", "b"], ["b"]]}))
